@@ -10,7 +10,6 @@ set_option linter.unusedSectionVars false
 namespace LndModel.C08
 variable {P Hsh : Type} [DecidableEq P] [DecidableEq Hsh] (H : P → Hsh) (hash : Hsh)
 
-set_option maxHeartbeats 8000000 in
 theorem inv_restart {s s' : Pair P} (hI : Inv H hash s) (h : step H hash s (.restart) = some s') :
     Inv H hash s' := by
   obtain ⟨a1, a2, a3, a4, a5, a6, a7, a8, a9, a10, a11, a12, a13, a14, a15, a16, a17, a18, a19, a20, a21, a22, a23, a24, a25, a26, a27⟩ := hI
